@@ -1106,8 +1106,8 @@ impl Prop for C03 {
     }
     fn case_count(&self, tier: Tier) -> u64 {
         match tier {
-            Tier::Quick => 3000,
-            Tier::Thorough => 60000,
+            Tier::Quick => 6000,
+            Tier::Thorough => 120000,
         }
     }
     fn fixed_cases(&self, tier: Tier) -> Vec<Case> {
